@@ -80,6 +80,9 @@ func genByteStrings(r *rng, emit func(b []byte)) {
 	frames := [][]byte{
 		{gbn.DATA, 3, 1, 0, 9, 9}, {gbn.ACK, 5}, {gbn.NACK, 5}, {gbn.SYN, 20}, {gbn.FIN}, {gbn.SYNACK},
 		{0, 0, 0, 0, 2, 7, 7}, {0, 0, 0, 0, 0},
+		// control-message length fields at the top of the uint32 range, with 0..6 bytes following
+		{0, 255, 255, 255, 251}, {0, 255, 255, 255, 252, 1}, {0, 255, 255, 255, 253, 1, 2}, {0, 255, 255, 255, 254, 1, 2, 3},
+		{0, 255, 255, 255, 255, 1, 2, 3, 4, 5, 6}, {0, 128, 0, 0, 0, 1}, {0, 127, 255, 255, 255, 1},
 	}
 	for _, f := range frames {
 		for pos := range f {
@@ -117,6 +120,9 @@ func TestGenC19(t *testing.T) {
 		md := msgDataDecode(b)
 		o.line("MD %s %s", hx(b), md)
 		q.stat("decode_inputs", 1)
+		// C07: no input makes a decoder panic
+		q.check(d != "panic", "c07:gbn-deserialize-panics", func() string { return "gbn.Deserialize(" + hx(b) + ") panicked" })
+		q.check(md != "panic", "c07:msgdata-deserialize-panics", func() string { return "MsgData.Deserialize(" + hx(b) + ") panicked" })
 		if d != "none" && d != "panic" {
 			if !distinct["D"+string(b)] {
 				distinct["D"+string(b)] = true
